@@ -173,40 +173,43 @@ Definition add_clock (st : state) (pk : path * Z) (c : option Z) : state :=
 Definition out_dir (d : dirs) : dirs := match d with Doe => Do | _ => d end.
 Definition phys_len (p : phys) : Z := match p with PPins l => Z.of_nat (length l) | PDiff l _ => Z.of_nat (length l) end.
 
-(* resolve, Pins/DiffPairs branch; (d, x) are the merged options of this leaf *)
+(* resolve, Pins/DiffPairs branch, after the names were mapped: port construction, clock constraint,
+   pin bookkeeping, Pin/PinBuffer creation; (d, x) are the merged options of this leaf *)
+Definition leaf_finish (nm : Z) (l : leafd) (d : dval) (x : xval) (pth : path) (attrs : alist) (st : state)
+           (pp nn : list Z) (diff : bool) : state * (err + lval) :=
+  let pt := mkPort pth diff pp nn (l_inv l) (out_dir (l_dir l)) attrs in
+  let st1 := add_clock st (pth, if diff then 1 else 0) (l_clock l) in
+  let (ph, ok) := claim (phys_reqd st1) (pp ++ nn) pth in
+  let st2 := mkSt (requested st1) ph (io_clocks st1) (pins st1) in
+  if negb ok then (st2, inl EResource)
+  else match d with
+       | DDash => (st2, inr (mkLval nm true pt (mkPin (phys_len (l_phys l)) Dio 0 pth) (l_clock l)))
+       | DDir dd =>
+         match x with
+         | XInt z =>
+           let pn := mkPin (phys_len (l_phys l)) dd z pth in
+           if (z =? 0) || (z =? 1) || (z =? 2)
+           then (mkSt (requested st2) (phys_reqd st2) (io_clocks st2) (pins st2 ++ [(pn, pt)]),
+                 inr (mkLval nm false pt pn (l_clock l)))
+           else (st2, inl EValue)                  (* PinBuffer: Unsupported 'xdr' value *)
+         | _ => (st2, inl EValue)
+         end
+       | _ => (st2, inl EType)
+       end.
+
 Definition resolve_leaf (fuel : nat) (cm : connmap) (nm : Z) (l : leafd) (d : dval) (x : xval)
            (pth : path) (attrs : alist) (st : state) : state * (err + lval) :=
-  let mk (pp nn : list Z) (diff : bool) : state * (err + lval) :=
-    let pt := mkPort pth diff pp nn (l_inv l) (out_dir (l_dir l)) attrs in
-    let st1 := add_clock st (pth, if diff then 1 else 0) (l_clock l) in
-    let (ph, ok) := claim (phys_reqd st1) (pp ++ nn) pth in
-    let st2 := mkSt (requested st1) ph (io_clocks st1) (pins st1) in
-    if negb ok then (st2, inl EResource)
-    else match d with
-         | DDash => (st2, inr (mkLval nm true pt (mkPin (phys_len (l_phys l)) Dio 0 pth) (l_clock l)))
-         | DDir dd =>
-           match x with
-           | XInt z =>
-             let pn := mkPin (phys_len (l_phys l)) dd z pth in
-             if (z =? 0) || (z =? 1) || (z =? 2)
-             then (mkSt (requested st2) (phys_reqd st2) (io_clocks st2) (pins st2 ++ [(pn, pt)]),
-                   inr (mkLval nm false pt pn (l_clock l)))
-             else (st2, inl EValue)                  (* PinBuffer: Unsupported 'xdr' value *)
-           | _ => (st2, inl EValue)
-           end
-         | _ => (st2, inl EType)
-         end in
   match l_phys l with
   | PPins ns =>
     match map_names fuel cm ns with
-    | LOk pp => mk pp [] false
+    | LOk pp => leaf_finish nm l d x pth attrs st pp [] false
     | LMissing => (st, inl EName)
     | LLoop => (st, inl EHang)
     end
   | PDiff ps ns =>
     match map_names fuel cm ps with
     | LOk pp => match map_names fuel cm ns with
-                | LOk nn => mk pp nn true
+                | LOk nn => leaf_finish nm l d x pth attrs st pp nn true
                 | LMissing => (st, inl EName)
                 | LLoop => (st, inl EHang)
                 end
